@@ -1,4 +1,4 @@
-From MV Require Import Lib.ExtractBase C11.Model.
+From MV Require Import Lib.ExtractBase C11.Model C11.ModelHeap.
 From Coq Require Import ExtrOcamlBasic.
 Extraction Language OCaml.
 Extraction "c11_model" force_types
@@ -6,4 +6,7 @@ Extraction "c11_model" force_types
   st_init st_ensure st_push st_top st_pop st_clear st_contents st_run
   ll_init ll_insert ll_append ll_remove ll_clear ll_find pos_ok ll_step
   qu_init qu_enqueue qu_dequeue qu_front qu_clear qu_step
-  ps_init ps_init_unrepaired ps_preset ps_insert ps_remove ps_get ps_iter ps_run.
+  ps_init ps_init_unrepaired ps_preset ps_insert ps_remove ps_get ps_iter ps_run
+  hl_init hl_at hl_insert hl_append hl_remove hl_clear hl_find hl_forward hl_backward hl_first hl_last hl_is_empty hl_prun
+  hq_init hq_enqueue hq_dequeue hq_front hq_clear hq_run
+  hps_init hps_preset hps_insert hps_remove hps_get hps_iter hps_backward hps_run.
